@@ -94,6 +94,10 @@ CHECKS = {
          "2-4 sessions on main plus one on branch b1 behind the production SQL engine; parent/child tables with primary key, UNIQUE, FOREIGN KEY, NOT NULL and a two-column CHECK; seeded statements over tiny domains that are legal in each session's snapshot and illegal in combination, COMMIT/ROLLBACK, dolt_commit, dolt_merge under autocommit, clean restarts; after every acknowledged commit of any kind (SQL COMMIT, autocommit statement, dolt_commit incl. AS OF the new commit, merge, on both branches, after restart) an independent evaluator re-checks all constraints over full scans of the committed tables; a final forced merge (@@dolt_force_transaction_commit) must list every violating row in dolt_constraint_violations_child.",
          "Constraint checks are never disabled by the workload; schema changes are not generated. Whether a refusal was necessary is not judged (the property forbids committed violations, not refusals).",
          "deterministic simulation: seeded statement-level interleaving + branch merges, independent constraint evaluator over committed state", "DESIGN.md §6.3 C24", "dsim-sql"),
+ "C28": ("exploration",
+         "2-4 sessions spread over three branches of one production SQL engine, two AUTO_INCREMENT tables; seeded INSERT forms (NULL / 0 / omitted id, multi-row, mixed explicit+generated, explicit above and below the sequence), START TRANSACTION / COMMIT / ROLLBACK, dolt_checkout to another branch, dolt_branch, DELETE of the newest rows, clean restarts (which end the server lifetime and reset the oracle); every generated id is read back through its row's unique tag and must be distinct from and larger than every id generated before by any session on any branch, and larger than every explicit value accepted before on any branch.",
+         "Statement-level interleaving only (S0): the per-table mutex inside SequenceTracker.Next is exercised sequentially; races inside one INSERT are not explored. TRUNCATE / ALTER ... AUTO_INCREMENT / branch deletion are not generated.",
+         "deterministic simulation: seeded statement-level interleaving across sessions and branches, history oracle over generated values", "DESIGN.md §6.3 C28", "dsim-sql"),
  "C27": ("exploration",
          "2-3 sessions on main plus one on branch b1 behind the production SQL engine, one keyless table with a secondary index; seeded multi-row INSERT of duplicates, DELETE/UPDATE ... LIMIT n, COMMIT/ROLLBACK, edits on b1, CALL dolt_merge('b1'), clean restarts; a multiset reference model per session and branch predicts every GROUP BY over all columns, COUNT(*) and index lookup; transaction commits and branch merges must combine multiplicity changes row by row and must refuse/report when both sides changed the multiplicity of one row differently.",
          "Refusals for convergent changes (both sides made the same change) are dolt being conservative and are counted, not reported. dolt_merge runs under autocommit (conflicts => rolled back + error); the dolt_conflicts table contents are C43 (pure).",
